@@ -48,9 +48,9 @@ func main() {
 			}})
 		}
 	}
-	depth := 1
+	depth := 2
 	if c.Thorough() {
-		depth = 2
+		depth = 3
 	}
 	var ctypes []datatype.DataType
 	for _, t := range gen.DataTypes(depth) {
